@@ -48,6 +48,35 @@ pub fn depths(node: &Node) -> (usize, usize) {
     (full, non_emph)
 }
 
+/// longest chain of directly nested emphasis-like wrappers (a link or image in between restarts the count):
+/// `EmphDepth.inline_emph_depth_bounded` says it is at most max_nesting
+pub fn emph_chain(node: &Node) -> usize {
+    let mut best = 0;
+    let mut stack = vec![(node, 0usize)];
+    while let Some((n, run)) = stack.pop() {
+        let k = dump::kind(n);
+        let run = if EMPH.contains(&k) || k == "Gen" { run + 1 } else if k == "Text" || k == "TextSpecial" || k == "Softbreak" || k == "Hardbreak" || k == "CodeInline" { run } else { 0 };
+        if run > best { best = run; }
+        for c in n.children.iter() { stack.push((c, run)); }
+    }
+    best
+}
+
+/// a random forest of emphasis: siblings of different depth inside enclosing pairs (the matcher has to take the
+/// MAXIMUM depth among the nodes it wraps, whatever their order)
+pub fn emph_forest(rng: &mut Rng, depth: usize) -> String {
+    let k = rng.range(1, 3);
+    let mut s = String::new();
+    for i in 0..k {
+        if i > 0 { s.push(' '); }
+        if depth == 0 || rng.chance(1, 4) { s.push_str(*rng.pick(&["a", "b c", "x"])); continue; }
+        let m = *rng.pick(&["*", "_", "**", "~~"]);
+        let d = if rng.chance(1, 2) { depth - 1 } else { rng.below(depth) };
+        s.push_str(m); s.push_str(&emph_forest(rng, d)); s.push_str(m);
+    }
+    s
+}
+
 pub fn bound(max_nesting: u32) -> usize { 4 * max_nesting as usize + 16 }
 
 /// `Pipeline.doc_full_depth_bounded` (Props/EmphDepthDoc.lean): the depth of the whole tree, emphasis wrappers
@@ -78,6 +107,12 @@ pub fn run(n: usize, rng: &mut Rng, rep: &mut Report) {
         for _ in 0..k { s.push_str(*rng.pick(&["](x)", "]", "a*", " a_", "**", ")"])); }
         cases.push(("mixed", k, *rng.pick(&limits), s));
     }
+    for _ in 0..(n / 10).max(200) {
+        let d = rng.range(2, 8);
+        let f = emph_forest(rng, d);
+        let src = match rng.below(4) { 0 => format!("[{}](u)", f), 1 => format!("> {}", f), _ => f };
+        cases.push(("emph-forest", d, *rng.pick(&[1u32, 2, 3, 5]), src));
+    }
     let res = crate::run::big_stack(move || {
         let mut rep = Report::new();
         for (name, sz, mn, src) in cases {
@@ -94,15 +129,18 @@ pub fn run(n: usize, rng: &mut Rng, rep: &mut Report) {
                 let html = tree.render();
                 let mut visited = 0usize;
                 tree.walk(|_, _| visited += 1);
-                (depths(&tree), html.len(), visited)
+                (depths(&tree), html.len(), visited, emph_chain(&tree))
             });
             #[cfg(mdit_verif)]
             let gauge = crate::run::hooks::take();
             rep.stats.case(&input, sz >= 150);
             match r {
                 Err(e) => rep.violation("panic", input, e),
-                Ok(((full, non_emph), _, _)) => {
+                Ok(((full, non_emph), _, _, chain)) => {
                     let b = bound(mn);
+                    if chain > mn as usize {
+                        rep.violation("emph-chain", if name == "emph-forest" { format!("{} src={}", input, crate::util::hexs(&src)) } else { input.clone() }, format!("{} directly nested emphasis wrappers with max_nesting {}", chain, mn));
+                    }
                     rep.stats.add("max_full_depth_seen", 0);
                     if non_emph > b {
                         rep.violation("depth", input.clone(), format!("tree depth {} (without emphasis wrappers {}) exceeds bound {} for max_nesting {}", full, non_emph, b, mn));
